@@ -581,7 +581,14 @@ Definition K_ForwardKeyTarget := mkKind (bytes * bytes) (bytes * bytes) encode_F
 
 Inductive case :=
 | CEnc (k : kind) (m : TE k) (obs : option bytes)
-| CDec (k : kind) (b : bytes) (obs : dres (TD k)).
+| CDec (k : kind) (b : bytes) (obs : dres (TD k))
+(** every truncation of [b]: [obs] lists the decoder's result on the first n
+    bytes, n = 0 .. length b, run-length encoded (count, result) *)
+| CTrunc (k : kind) (b : bytes) (obs : list (nat * dres (TD k)))
+(** every truncation of an embedded message with its length field kept
+    consistent: input n = pre ++ (lenw-byte big-endian n) ++ first n bytes of
+    inner ++ post, n = 0 .. length inner *)
+| CWrap (k : kind) (pre : bytes) (lenw : nat) (inner post : bytes) (obs : list (nat * dres (TD k))).
 
 Definition dres_eqb {T} (e : T -> T -> bool) (a b : dres T) : bool :=
   match a, b with
@@ -590,10 +597,18 @@ Definition dres_eqb {T} (e : T -> T -> bool) (a b : dres T) : bool :=
   | _, _ => false     (* an observed panic never agrees with the model *)
   end.
 
+Definition expand_runs {T} (l : list (nat * T)) : list T :=
+  concat (map (fun p => repeat (snd p) (fst p)) l).
+
 Definition case_ok (c : case) : bool :=
   match c with
   | CEnc k m obs => option_eqb bytes_eqb (k_enc k m) obs
   | CDec k b obs => dres_eqb (k_eqb k) (k_dec k b) obs
+  | CTrunc k b obs =>
+      list_eqb (dres_eqb (k_eqb k)) (map (fun n => k_dec k (firstn n b)) (seq 0 (S (length b)))) (expand_runs obs)
+  | CWrap k pre lenw inner post obs =>
+      list_eqb (dres_eqb (k_eqb k))
+        (map (fun n => k_dec k (pre ++ be_put lenw (N.of_nat n) ++ firstn n inner ++ post)) (seq 0 (S (length inner)))) (expand_runs obs)
   end.
 
 Fixpoint mismatches_from (i : N) (cs : list case) : list N :=
